@@ -266,6 +266,34 @@ theorem paveba_rect_final_accurate (W : Mat) (alpha : Vec) (eps : Rat) (m K : Na
     exact this
   · exact hT
 
+/-- **C01 for the rectangular variants, end to end, in the code's units.**  As
+`paveba_final_accurate_of_valid_regions`, but with the covering oracle read the way
+`RectangularConfidenceRegion.is_covered` works: `is_covered = False ⇒ ¬ ∃∃ z' ≽ z + s` with the slack
+`s` an objective-space vector (`SemCoverableS`).  The conclusion is (a) and `accT` with the thresholds
+`W·s`; (b) follows under the side condition by `accB_of_accT` / `paveba_rect_final_accurate`. -/
+theorem paveba_rect_final_accurate_of_valid_regions (W : Mat) (s : Vec) (K : Nat) (mu : Nat → Vec)
+    (hmu : ∀ i, i < K → (mu i).length = s.length)
+    (hpos : ∃ n, ∃ _ : n < W.length, ∃ h2 : n < (matVec W s).length, 0 < (matVec W s)[n])
+    (R : Nat → Nat → Region) (isDom isCov : Nat → Rel) (T : Nat)
+    (hlen : ∀ r i z, R r i z → z.length = s.length)
+    (hDom : ∀ r, r < T → ∀ i j, isDom r i j = true ↔ SemDominated W (R r i) (R r j))
+    (hCov : ∀ r, r < T → ∀ i j, isCov r i j = false → ¬ SemCoverableS W s (R r i) (R r j))
+    (hvalid : ∀ r, r < T → ∀ i,
+      (i ∈ (pavebaRun K isDom isCov r).1 ∨ i ∈ (pavebaRun K isDom isCov r).2.2) → R r i (mu i))
+    (hpersist : ∀ r, r + 1 < T → ∀ i,
+      ¬ (i ∈ (pavebaRun K isDom isCov (r + 1)).1 ∨ i ∈ (pavebaRun K isDom isCov (r + 1)).2.2) →
+      R (r + 1) i = R r i)
+    (hnondeg : ∀ r, r < T → ∀ i,
+      (i ∈ (pavebaRun K isDom isCov r).1 ∨ i ∈ (pavebaRun K isDom isCov r).2.2) →
+      ∃ z, R r i z ∧ ∃ z', R r i z' ∧ ∃ w ∈ W, dot w z ≠ dot w z')
+    (hfinal : (pavebaRun K isDom isCov T).1 = []) :
+    accA W K mu (pavebaRun K isDom isCov T).2.1 = true ∧
+    accT W (matVec W s) K mu (pavebaRun K isDom isCov T).2.1 = true :=
+  paveba_final_accurate_of_valid_regions W (matVec W s) s.length K mu hmu hpos R isDom isCov T hlen hDom
+    (fun r hr i j h hc => hCov r hr i j h
+      ((semCoverableS_iff W s (R r i) (R r j) (hlen r i) (hlen r j)).mpr hc))
+    hvalid hpersist hnondeg hfinal
+
 /-! ## what the executable checks mean -/
 
 /-- `gapLe` (decided facet by facet) is `m(i,j) ≤ ε` for the literal minimum
@@ -283,6 +311,27 @@ theorem accA_spec (W : Mat) (K : Nat) (mu : Nat → Vec) (P : List Nat) :
 theorem accB_spec (W : Mat) (alpha : Vec) (eps : Rat) (K : Nat) (mu : Nat → Vec) (P : List Nat) :
     accB W alpha eps K mu P = true ↔ ∀ i ∈ P, ∀ j, j < K → gapLe W alpha eps (mu i) (mu j) = true :=
   accB_iff W alpha eps K mu P
+
+/-- `inBox l u x` (the per-round premise check for rectangles) says `l ≤ x ≤ u` in every coordinate,
+the three vectors having one common length. -/
+theorem inBox_spec (l u x : Vec) :
+    inBox l u x = true ↔
+      l.length = x.length ∧ u.length = x.length ∧
+        ∀ n, ∀ h : n < x.length, ∀ hl : n < l.length, ∀ hu : n < u.length, l[n] ≤ x[n] ∧ x[n] ≤ u[n] :=
+  inBox_iff l u x
+
+/-- `inEll c Σ a x = some true` (the per-round premise check for ellipsoids / balls) certifies
+`(x − c)ᵀ Σ⁻¹ (x − c) ≤ a²`: it exhibits `y` with `Σ y = x − c` and `(x − c)·y ≤ a²`, `a ≥ 0`. -/
+theorem inEll_spec (c : Vec) (Sg : Mat) (a : Rat) (x : Vec) (h : inEll c Sg a x = some true) :
+    ∃ y : Vec, matVec Sg y = vsub x c ∧ dot (vsub x c) y ≤ a * a ∧ 0 ≤ a :=
+  inEll_sound c Sg a x h
+
+/-- For a width row with equal entries (Auer with `use_empirical_beta = False`) the premise of
+`auer_final_accurate` is exactly "μ_i inside the displayed box `[c − b, c + b]`". -/
+theorem auer_premise_uniform_is_box (m : Nat) (hm : 0 < m) (c mu : Vec) (b : Rat)
+    (hc : c.length = m) (hmu : mu.length = m) :
+    errWithin c (List.replicate m b) mu = true ↔ inBox (c.map (· - b)) (c.map (· + b)) mu = true :=
+  errWithin_uniform_iff_inBox m hm c mu b hc hmu
 
 /-! ## Auer -/
 
